@@ -70,7 +70,7 @@ def delaunay_mesh(rng: random.Random, n: int, kind: str = "random", smooth: int 
 
 def make_device(rng: random.Random, *, holes=0, terminals=2, max_edge_length=None, smooth=0,
                 length_units="um", xi=0.5, london_lambda=2.0, d=0.1, gamma=10.0, u=5.79,
-                probe_points=True, shape="box", scale=1.0, conductivity=None):
+                probe_points=True, shape="box", scale=1.0, conductivity=None, hole_kind="convex"):
     """A real tdgl.Device with a Triangle mesh (retries on malformed Voronoi cells)."""
     import tdgl
     from tdgl.geometry import box, circle, ellipse
@@ -89,7 +89,19 @@ def make_device(rng: random.Random, *, holes=0, terminals=2, max_edge_length=Non
             film.name = "film"
             film = film.resample(npts)
         hs = []
-        if holes >= 1:
+        if holes >= 1 and hole_kind != "convex":
+            # non-convex holes built from the documented primitives (unions of boxes): the vertex mean and even the
+            # area centroid of such a hole can lie outside it
+            s_ = scale
+            arm = {"L": 0.5, "thinL": 0.18, "C": 0.25}[hole_kind]
+            a1 = tdgl.Polygon("a", points=box(2.2 * s_, arm * s_, center=(-0.9 * s_, -0.6 * s_), points=rng.choice([24, 60])))
+            a2 = tdgl.Polygon("b", points=box(arm * s_, 1.8 * s_, center=((-2.0 + arm / 2) * s_, (-0.6 - arm / 2 + 0.9) * s_), points=12))
+            hole = a1.union(a2, name="hole1")
+            if hole_kind == "C":
+                a3 = tdgl.Polygon("c", points=box(2.2 * s_, arm * s_, center=(-0.9 * s_, (-0.6 - arm + 1.8) * s_), points=24))
+                hole = hole.union(a3, name="hole1")
+            hs.append(hole)
+        elif holes >= 1:
             hs.append(tdgl.Polygon("hole1", points=circle(0.6 * scale, center=(-1.2 * scale, 0.3 * scale), points=21)))
         if holes >= 2:
             hs.append(tdgl.Polygon("hole2", points=box(0.9 * scale, 0.7 * scale, center=(1.3 * scale, -0.4 * scale), points=21)))
